@@ -227,6 +227,7 @@ def run(chk):
 
     chk.rule("R5", "tests of a source dtype against concrete types in cast compilation / validation are made on without_const(..) of it")
 
+    chk.rule("R3w", "every cast_compiled interpreted over terms on sample casts: a CAST / TRY_CAST of the compiled operand to the SQL type of the node's own target type; the generic one maps strict to CAST and non-strict to TRY_CAST")
     chk.rule("R6w", "PostgresImpl.cast_compiled(strict=False) interpreted as a whole for every numeric (source, target) pair incl. width-less and Const types: builds an expression")
     chk.rule("R6", "type-level helper functions of the cast compilers are total over the int / float family that reaches them (interpreted from source)")
 
@@ -274,7 +275,8 @@ def run(chk):
     chk.ob("R2", ce, init, "Cast.__init__ rejects const target types", const_reject, "cast to a const type is no longer rejected")
     _cast_dtype_interpreted(chk, m, ce, accepted, sources, targets)
 
-    # ---- R3 back ends
+    # ---- R3 back ends: decided by interpretation where possible (R3w), by shape otherwise
+    decided_cc = _cast_compiled_targets(chk, m)
     n_cc = 0
     for short in ("backend.sql", "backend.sqlite", "backend.postgres", "backend.mssql", "backend.duckdb", "backend.ibm_db2"):
         try:
@@ -284,6 +286,8 @@ def run(chk):
         for q, node in mod.defs.items():
             if isinstance(node, ast.FunctionDef) and node.name == "cast_compiled":
                 n_cc += 1
+                if q in decided_cc:
+                    continue
                 pcast = node.args.args[1].arg
                 for kind, r in exits(node):
                     if kind == "raise":
@@ -311,11 +315,11 @@ def run(chk):
                             ok = ok or (len(c.args) >= 1 and norm(c.args[0]) == pcast)
                     chk.ob("R3", mod, r, f"{q}: {norm(r)[:110]}", ok,
                            f"{q} returns an expression that is not a CAST to `{pcast}.target_type`")  # fmt: skip
-    chk.floor("R3", "cast_compiled definitions", n_cc, 4)
+    chk.floor("R3", "cast_compiled definitions", n_cc, 2)
     # strict flag honoured in the generic implementation
     sql = chk.repo.mod("backend.sql")
     gen = sql.func("SqlImpl.cast_compiled")
-    strict_ok = False
+    strict_ok = "SqlImpl.cast_compiled" in decided_cc
     for n in ast.walk(gen):
         if isinstance(n, ast.If) and norm(n.test).endswith(".strict"):
             t = any((dotted(c.func) or "").endswith(".cast") for c in calls_in(ast.Module(body=n.body, type_ignores=[])))
@@ -443,6 +447,53 @@ def _type_helpers(chk, m, valid_pairs):
     _cast_compiled_total(chk, m, ints, floats)
 
 
+def _cast_compiled_targets(chk, m):
+    """R3w: every cast_compiled interpreted over terms on sample casts: the expression contains a CAST / TRY_CAST of the
+    compiled operand to the SQL type of the node's own target type; the generic one maps strict to CAST and non-strict to
+    TRY_CAST.  -> set of qualified names decided"""
+    from ..catalogue import DT
+    from ..interp import Native, Obj, PyRaise, SymbolicBranch, Term, Var
+    from ..program import Program
+
+    decided = set()
+    prog = Program(chk.repo, m_types_env(m), primary="backend.sql")
+    samples = [(DT("Int64"), DT("Int32")), (DT("String"), DT("Int64")), (DT("Float64"), DT("Int16")), (DT("Int64"), DT("String")), (DT("Date"), DT("Datetime"))]
+    for short, cname in (("backend.sql", "SqlImpl"), ("backend.sqlite", "SqliteImpl"), ("backend.postgres", "PostgresImpl"), ("backend.mssql", "MsSqlImpl"), ("backend.duckdb", "DuckDbImpl"), ("backend.ibm_db2", "IbmDb2Impl")):
+        try:
+            mod = chk.repo.mod(short)
+            cls_ = prog.env_of(mod)[cname]
+        except (AnalysisError, KeyError):
+            continue
+        f = cls_.methods.get("cast_compiled")
+        if f is None or f.owner is not cls_:
+            continue
+        q = f"{cname}.cast_compiled"
+        try:
+            for (s_, t_), strict in [(p_, st) for p_ in samples for st in (True, False)]:
+                o = Obj(cls_)
+                o.attrs.update({"sqa_type": Native(lambda t: Var(f"sqltype:{t!r}"), "cls.sqa_type"), "nan": Native(lambda: Var("nan"), "nan"), "inf": Native(lambda: Var("inf"), "inf")})
+                val = prog.new("tree.col_expr", "Col", name="c", _ast=None, _uuid="u", _dtype=s_, _ftype=None)
+                cast = prog.new("tree.col_expr", "Cast", val=val, target_type=t_, strict=strict, _dtype=None, _ftype=None)
+                r = prog.call(f.bind(o), [cast, Var("expr")])
+                casts = [x for x in (r.walk() if isinstance(r, Term) else []) if x.fn.split(".")[-1].lower() in ("cast", "try_cast") and len(x.args) >= 2]
+                to_target = [x for x in casts if x.args[1] == Var(f"sqltype:{t_!r}")]
+                operand_inside = any(any(y == Var("expr") for y in x.walk()) for x in to_target)
+                chk.ob("R3w", mod, f.node, f"{q}({s_!r} -> {t_!r}, strict={strict}) casts the compiled operand to the target type", bool(to_target) and operand_inside,
+                       f"{q} for {s_!r} -> {t_!r} (strict={strict}) builds {str(r)[:200]}: no CAST of the operand to the SQL type of the node's target type")  # fmt: skip
+                if cname == "SqlImpl":
+                    kinds = {x.fn.split(".")[-1].lower() for x in to_target}
+                    want = {"cast"} if strict else {"try_cast"}
+                    chk.ob("R3w", mod, f.node, f"{q}: strict={strict} -> {sorted(want)[0].upper()}", kinds == want,
+                           f"the generic SQL cast maps strict={strict} to {sorted(kinds)}; documented: {'CAST (errors surface)' if strict else 'TRY_CAST (NULL for values that cannot be converted)'}")  # fmt: skip
+            decided.add(q)
+        except (AnalysisError, SymbolicBranch) as e:
+            chk.note(f"R3w: {q} not interpreted ({str(e)[:120]}); judged by shape")
+        except PyRaise as p_:
+            chk.ob("R3w", mod, f.node, f"{q} on sample casts", False, f"{q} raises {p_.name}: {p_.msg}")
+            decided.add(q)
+    return decided
+
+
 def _cast_compiled_total(chk, m, ints, floats):
     """R6w: the non-strict cast compilers interpreted as a whole (program.Program, SQLAlchemy symbolic) for every numeric
     (source, target) pair incl. the width-less `Int` / `Float` and Const operands: they must build an expression, not die"""
@@ -476,6 +527,35 @@ def _cast_compiled_total(chk, m, ints, floats):
                             bad.append((s_, t_, f"returns {r!r}"))
                     except PyRaise as p_:
                         bad.append((s_, t_, f"{p_.name}: {p_.msg}"))
+            # the entry point compile_cast on boolean and float operands (dialect special cases re-enter the compiler)
+            fc = cls_.methods.get("compile_cast")
+            if fc is not None and fc.owner is cls_:
+                for s_ in (DT("Bool"), DT("Const", DT("Bool")), DT("Float64"), DT("Int64")):
+                    for t_ in ints + [DT("String"), DT("Float64")]:
+                        self_cls = Obj(cls_)
+                        self_cls.attrs.update({
+                            "sqa_type": Native(lambda t: Var(f"sqltype:{t!r}"), "cls.sqa_type"), "nan": Native(lambda: Var("nan"), "cls.nan"), "inf": Native(lambda: Var("inf"), "cls.inf"),
+                        })  # fmt: skip
+
+                        def _cce(e, sqa_col, _o=self_cls, **k):
+                            # the expression dispatcher: a nested cast node goes back into compile_cast (as SqlImpl.compile_col_expr does)
+                            if isinstance(e, Obj) and e.cls.name == "Cast":
+                                return prog.call(prog.method(_o, "compile_cast"), [e, sqa_col])
+                            return Var("operand")
+
+                        self_cls.attrs["compile_col_expr"] = Native(_cce, "cls.compile_col_expr")
+                        val = prog.new("tree.col_expr", "Col", name="c", _ast=None, _uuid="u", _dtype=s_, _ftype=None)
+                        cast = prog.new("tree.col_expr", "Cast", val=val, target_type=t_, strict=True, _dtype=t_, _ftype=None)
+                        n += 1
+                        try:
+                            r = prog.call(fc.bind(self_cls), [cast, {}])
+                            if not isinstance(r, (Term, Var)):
+                                bad.append((s_, t_, f"compile_cast returns {r!r}"))
+                        except PyRaise as p_:
+                            if p_.name != "DataTypeError":  # an invalid pair is rejected when the inner Cast node is built
+                                bad.append((s_, t_, f"compile_cast: {p_.name}: {p_.msg}"))
+                        except RecursionError:
+                            bad.append((s_, t_, "compile_cast does not terminate (it re-enters itself with a cast of the same kind)"))
             chk.ob("R6w", mod, f.node, f"{cname}.cast_compiled(strict=False) builds an expression for all {n} numeric (source, target) pairs", not bad,
                    f"{cname}.cast_compiled(strict=False) fails for {len(bad)} of {n} numeric type pairs, e.g. {bad[0][0]!r} -> {bad[0][1]!r}: {bad[0][2]} "
                    "(computed integers carry the width-less `Int`, constants a Const wrapper): the cast dies with an internal error at compile time" if bad else "")  # fmt: skip
